@@ -7,12 +7,16 @@
   squares and the blocks the iterated products (`dyadicRoots_spec`, `blocks_spec`); at the base field
   they are the model's `dyadicRoots`, `precompBlock` and `g8` (`dyadicRoots_model`, `blocks_model`,
   `recon_model`) — the tables `Tie.SqrtFp.sqrtPrecomp_eq` takes as parameters and
-  `C17.sqrtPrecomp_spec` is proved for.  The look-up-table closure stays pinned (`Tie.SqrtFp.init_shape`).
+  `C17.sqrtPrecomp_spec` is proved for.  The look-up-table closure (a Go map) is translated as an association
+  list with the newest entry first: `lut_spec` (entry `i` is `key(recon^i) ↦ (256 − i) mod 256`), `lut_model`
+  (= the model's `dlogLUT`, reversed) and `lutLookup_model` (reading it = the model's look-up, because the 256 keys
+  are pairwise distinct: `C17.lut_keys_distinct`).
 -/
 import GoIpa.Lemmas.LoopLemmas
 import GoIpa.Lemmas.ZpField
 import GoIpa.Model.Sqrt
 import GoIpa.Tie.SqrtFp
+import GoIpa.Props.C17
 namespace GoIpa.Tie.SqrtTables
 open GoIpa GoIpa.Gen.SqrtFp GoIpa.Tie.SqrtFp
 
@@ -190,5 +194,93 @@ theorem recon_model : (go_dyadicRoots dyadicRoot).getD reconIndex 0 = g8 := by
   have : reconIndex = 24 := rfl
   rw [this, dyadicRoots_model 24 (by omega)]
   rfl
+
+/-! ### the discrete-log look-up table -/
+
+section
+variable {K : Type} [Mul K] [One K] [Zero K]
+
+/-- the key the table is indexed with -/
+def lutKey (limb0 : K → Nat) (x : K) : Nat := (limb0 x &&& (0xFFFF : Nat)) % 65536
+
+/-- **the look-up-table closure**: entry `i` (in store order) is `key(recon^i) ↦ (256 − i) mod 256` -/
+theorem lut_spec (limb0 : K → Nat) (recon : K) :
+    go_lut limb0 recon = ((List.range 256).map (fun i => (lutKey limb0 (powL recon i), (256 - i % 256) % 256))).reverse := by
+  unfold go_lut
+  have c : lutSize = 256 := rfl
+  simp only [c, forNat_eq, Nat.sub_zero, Nat.zero_add]
+  have key := Loop.foldl_range_inv
+    (fun k (st : List (Nat × Nat) × K) =>
+      st.1 = ((List.range k).map (fun i => (lutKey limb0 (powL recon i), (256 - i % 256) % 256))).reverse ∧ st.2 = powL recon k)
+    (fun (st : List (Nat × Nat) × K) (k : Nat) =>
+      (fun i (st : List (Nat × Nat) × K) =>
+        let (ret, rootOfUnity) := st
+        let ret := (((limb0 rootOfUnity &&& (0xFFFF : Nat)) % 65536), ((256 - i % 256) % 256)) :: ret
+        let rootOfUnity := rootOfUnity * recon
+        (ret, rootOfUnity)) k st)
+    (([] : List (Nat × Nat)), (1 : K)) 256
+    ⟨rfl, rfl⟩
+    (by
+      rintro k ⟨ret, x⟩ hk ⟨h1, h2⟩
+      simp only at h1 h2
+      subst h1 h2
+      refine ⟨?_, rfl⟩
+      simp only [List.range_succ, List.map_append, List.map_cons, List.map_nil, List.reverse_append,
+        List.reverse_cons, List.reverse_nil, List.nil_append, List.cons_append]
+      rfl)
+  exact key.1
+
+end
+
+/-- on a list with pairwise distinct keys, the newest-first and the oldest-first association list read the same -/
+theorem find_reverse (l : List (Nat × Nat)) (hn : (l.map (·.1)).Nodup) (k : Nat) :
+    l.reverse.find? (fun e => e.1 == k) = l.find? (fun e => e.1 == k) := by
+  induction l with
+  | nil => rfl
+  | cons a t ih =>
+    have hn' : (t.map (·.1)).Nodup := (List.nodup_cons.1 (by simpa using hn)).2
+    have hna : a.1 ∉ t.map (·.1) := (List.nodup_cons.1 (by simpa using hn)).1
+    rw [List.reverse_cons, List.find?_append, ih hn']
+    by_cases hk : a.1 = k
+    · have hnone : t.find? (fun e => e.1 == k) = none := by
+        rw [List.find?_eq_none]
+        intro e he hek
+        apply hna
+        have : e.1 = k := by simpa using hek
+        rw [hk, ← this]
+        exact List.mem_map_of_mem he
+      rw [hnone]
+      simp [List.find?, hk]
+    · have : (a.1 == k) = false := by simpa using hk
+      simp [List.find?, this]
+
+/-! ### the look-up table at the base field is the model's `dlogLUT` -/
+
+theorem powL_pow (r : Fp) (j : Nat) : powL r j = r ^ j := by
+  apply Zp.toZ_injective
+  rw [toZ_powL, Zp.toZ_pow]
+
+theorem key_eq (x : Fp) : lutKey limb0P x = montKey x := by
+  unfold lutKey limb0P montKey
+  have e : (0xFFFF : Nat) = 2 ^ 16 - 1 := by decide
+  rw [e, Nat.and_two_pow_sub_one_eq_mod]
+  have e2 : (65536 : Nat) = 2 ^ 16 := by decide
+  rw [e2, Nat.mod_mod, Nat.mod_mod_of_dvd _ (by decide : 2 ^ 16 ∣ 2 ^ 64)]
+
+/-- **the look-up table built by `init()` is the model's `dlogLUT`** (as a Go map: newest entry first) -/
+theorem lut_model : go_lut limb0P g8 = dlogLUT.reverse := by
+  rw [lut_spec]
+  apply congrArg List.reverse
+  unfold dlogLUT
+  apply List.map_congr_left
+  intro i hi
+  have hi' : i < 256 := List.mem_range.1 hi
+  rw [key_eq, powL_pow, Nat.mod_eq_of_lt hi']
+
+/-- reading the translated table = the model's look-up (`Tie.SqrtFp.lutP`), because the 256 keys are
+pairwise distinct (`C17.lut_keys_distinct`) -/
+theorem lutLookup_model (k : Nat) : lutLookup (go_lut limb0P g8) k = lutP k := by
+  unfold lutLookup lutP
+  rw [lut_model, find_reverse _ C17.lut_keys_distinct]
 
 end GoIpa.Tie.SqrtTables
